@@ -103,13 +103,13 @@ class ExecLoop(Harness):
     outside = Health.outside
 
     def shards(self, tier):
-        return [{"msg": m, "dead": d} for m in range(5) for d in range(4)]
+        return [{"msg": m, "dead": d} for m in range(6) for d in range(4)]
 
     def budget(self, tier):
         return 60.0
 
     def bounds(self, tier):
-        return {"messages": ["none", "TaskSequence to live worker", "TaskSequence to dead worker", "unsupported message", "ExecutorShutdown"], "dead_child": ["none", "worker", "shm server", "data server"], "iterations": 3}
+        return {"messages": ["none", "TaskSequence to live worker", "TaskSequence to worker that exited with 1", "unsupported message", "ExecutorShutdown", "TaskSequence to worker that exited with 0"], "dead_child": ["none", "worker", "shm server", "data server"], "iterations": 3}
 
     def functions(self):
         return [executor_mod.Executor.recv_loop, executor_mod.Executor.healthcheck, executor_mod.Executor.terminate, executor_mod.Executor.to_controller]
@@ -128,15 +128,17 @@ class ExecLoop(Harness):
             ex.shm_process, ex.data_server = procs["shm"], procs["data"]
             ts = M.TaskSequence(worker=W0, tasks=["t"], publish=set())
             m = params["msg"]
-            if m in (1, 2):
+            if m in (1, 2, 5):
                 if m == 2:
                     procs["worker"].exitcode = 1
+                if m == 5:
+                    procs["worker"].exitcode = 0  # e.g. a task body called sys.exit(0) after publishing
                 fakezmq.NET.q(EXEC).append([serde.ser_message(M.Syn(0, CTRL)), serde.ser_message(ts)])
             elif m == 3:
                 fakezmq.NET.q(EXEC).append([serde.ser_message(M.WorkerReady(W0))])
             elif m == 4:
                 fakezmq.NET.q(EXEC).append([serde.ser_message(M.Syn(0, CTRL)), serde.ser_message(M.ExecutorShutdown())])
-            failure_present = params["dead"] != 0 or m in (2, 3)
+            failure_present = params["dead"] != 0 or m in (2, 3, 5)
             for it in range(3):
                 ex.mlistener.calls = 0
                 if ex.terminating:
@@ -162,9 +164,11 @@ class ExecLoop(Harness):
                     raise Violation("spurious-failure-report", str(fails[0]))
             if m == 4 and len(exits) != 1:
                 raise Violation("shutdown-not-confirmed-once", f"{len(exits)}")
+            wq = fakezmq.NET.queues.get("ipc:///tmp/h0.w0.socket", [])
+            if m in (2, 5) and any(isinstance(pickle.loads(f[0]), M.TaskSequence) for f in wq):
+                raise Violation("task-sequence-forwarded-to-dead-worker", f"worker exit code {procs['worker'].exitcode}")
             if ex.terminating:
                 # terminate() ran: live children were told to stop
-                wq = fakezmq.NET.queues.get("ipc:///tmp/h0.w0.socket", [])
                 if procs["worker"].exitcode is None or True:
                     if not any(isinstance(pickle.loads(f[0]), M.WorkerShutdown) for f in wq):
                         raise Violation("worker-not-told-to-stop")
